@@ -104,6 +104,53 @@ func genC17(r *rand.Rand, t *Trace, thorough bool) {
 				if code == 3 {
 					t.Stat("lock.second_close")
 				}
+			case x < 61: // Close racing Close (and operations) on one handle
+				if nextH == 1 {
+					continue
+				}
+				h := 1 + r.Intn(nextH-1)
+				st, ok := handles[h]
+				if !ok {
+					continue
+				}
+				nc := 2 + r.Intn(5)
+				nu := r.Intn(4)
+				closes := make([]int, nc)
+				uses := make([]int, nu)
+				var wg sync.WaitGroup
+				start := make(chan struct{})
+				for i := 0; i < nc+nu; i++ {
+					wg.Add(1)
+					go func(i int) {
+						defer wg.Done()
+						var err error
+						<-start
+						pan := catchPanic(func() {
+							switch {
+							case i < nc:
+								err = st.Close()
+							case i%2 == 0:
+								_, err = st.Add([]float32{1, 2}, "", nil)
+							default:
+								_, err = st.NewSearch().WithVector([]float32{1, 2}).WithK(3).Execute()
+							}
+						})
+						code := lockCode(err)
+						if pan {
+							code = 12
+						}
+						if i < nc {
+							closes[i] = code
+						} else {
+							uses[i-nc] = code
+						}
+					}(i)
+				}
+				close(start)
+				wg.Wait()
+				la := lockExists(dir)
+				ops = append(ops, func(c *Case) { c.N(8).N(h).Ints(closes).Ints(uses).B(la) })
+				t.Stat("lock.close_racing_close")
 			case x < 75: // use
 				if nextH == 1 {
 					continue
